@@ -51,8 +51,9 @@ static int runOn(uint8_t fill, const std::string &file, size_t maxCycles, std::s
   return rc;
 }
 
+static std::string hexScratch(const char *leaf) { const char *b = getenv("HEX_SCRATCH"); return std::string(b && *b ? b : "/var/tmp") + "/" + leaf; } // scratch files live under out/<ID>/scratch (wiped with it)
 int main(int argc, char **argv) {
-  char tmpl[] = "/var/tmp/hexc12.XXXXXX"; char *d = mkdtemp(tmpl); if (d) chdir(d);
+  std::string tmplS = hexScratch("hexc12.XXXXXX"); char *d = mkdtemp(&tmplS[0]); if (d) chdir(d);
   // (1) sp = mem[1] is inside the image; exit(mem[sp+2]) where sp+2 is beyond the image (never written).
   //     BR +7 skips the data; word1 = 100 (sp); code: LDAC 0; OPR SVC  -> exit value = mem[102]
   std::vector<uint8_t> p1 = {0x97, 0, 0, 0, 100, 0, 0, 0, 0x30, 0xD3};
